@@ -163,6 +163,29 @@ theorem lk_map_setFlag (tb : Table) (k k' : Nat) :
       simp only [this]
       exact ih
 
+def setVal (k v : Nat) (r : Row) : Row := if r.key == k then { r with val := v } else r
+
+theorem setVal_key (k v : Nat) (r : Row) : (setVal k v r).key = r.key := by
+  unfold setVal; split <;> rfl
+
+theorem map_setVal_keys (tb : Table) (k v : Nat) : (tb.map (setVal k v)).map Row.key = tb.map Row.key := by
+  simp [List.map_map, Function.comp_def, setVal_key]
+
+theorem lk_map_setVal (tb : Table) (k v k' : Nat) :
+    lk (tb.map (setVal k v)) k' = if k' = k then (lk tb k').map (fun x => (v, x.2)) else lk tb k' := by
+  induction tb with
+  | nil => simp [lk]
+  | cons r rest ih =>
+    simp only [lk, List.map_cons, List.find?_cons, setVal_key] at ih ⊢
+    by_cases h : r.key = k'
+    · simp only [h, beq_self_eq_true]
+      by_cases h2 : k' = k
+      · simp [setVal, h, h2]
+      · simp [setVal, h, h2]
+    · have : (r.key == k') = false := by simpa using h
+      simp only [this]
+      exact ih
+
 theorem lookup_set (ts : List Table) (t : Nat) (x : Table) (ht : t < ts.length) (t' k : Nat) :
     lookup (ts.set t x) t' k = if t' = t then lk x k else lookup ts t' k := by
   by_cases h : t' = t
@@ -288,6 +311,34 @@ theorem remove_effect (t k v : Nat) (sk : List Sk) (h : sk ∈ allowed (.remove 
     · rename_i h; subst h
       have hk : k' ≠ k := fun hk => hne (by rw [hk])
       rw [lk_filter_ne _ _ _ hk]; rfl
+    · rfl
+
+/-- retire: the row with key `k` keeps its flag and gets value `v` (a missing key stays missing), every
+    other record of every table is untouched, the key set is unchanged. -/
+theorem retire_effect (t k v : Nat) (sk : List Sk) (h : sk ∈ allowed (.retire t)) (db : Db)
+    (hdb : db.inTx = false) (ht : t < db.committed.length) (hu : UniqueKeys db.committed) :
+    let db' := run [(k, v)] db sk
+    db'.inTx = false ∧ db'.committed.length = db.committed.length ∧ UniqueKeys db'.committed ∧
+    lookup db'.committed t k = (lookup db.committed t k).map (fun old => (v, old.2)) ∧
+    (∀ t' k', (t', k') ≠ (t, k) → lookup db'.committed t' k' = lookup db.committed t' k') := by
+  simp only [allowed, List.mem_cons, List.not_mem_nil, or_false] at h
+  subst h
+  intro db'
+  have hdb' : db' = Db.mk (db.committed.set t ((tbl db.committed t).map (setVal k v)))
+        (db.committed.set t ((tbl db.committed t).map (setVal k v))) false := by
+    have hf : setVal k v = fun r => if r.key = k then { key := r.key, val := v, flag := r.flag } else r := by
+      funext r; simp [setVal]
+    simp [db', run, exec, hdb, applyDml, hf]
+  rw [hdb']
+  refine ⟨rfl, by simp, ?_, ?_, ?_⟩
+  · exact unique_set _ t _ ht hu (by rw [map_setVal_keys]; exact hu t)
+  · rw [lookup_set _ _ _ ht, if_pos rfl, lk_map_setVal, if_pos rfl, lookup_eq]
+  · intro t' k' hne
+    rw [lookup_set _ _ _ ht]
+    split
+    · rename_i h; subst h
+      have hk : k' ≠ k := fun hk => hne (by rw [hk])
+      rw [lk_map_setVal, if_neg hk]; rfl
     · rfl
 
 theorem markSent_effect (t k0 k1 : Nat) (sk : List Sk) (h : sk ∈ allowed (.markSent t)) (db : Db)
